@@ -1,11 +1,11 @@
 SPECIFICATION Spec
 CONSTANTS
-  Shapes <- ShapesQuick
-  MaxDepth = 1
-  Focus = "all"
+  Shapes <- ShapesChains
+  MaxDepth = 3
+  Focus = "chains"
   MaxSize = 12
-  AsFound = TRUE
-  EmitCases = FALSE
+  AsFound = FALSE
+  EmitCases = TRUE
 INVARIANT DeclaredShapeIsSemantic
 INVARIANT Exact
 INVARIANT RoundTrip
